@@ -187,6 +187,14 @@ fn oracle(c: &Case, ctx: &mut Ctx) -> CaseResult {
 			return Err(f);
 		}
 		let out = r.finish_out();
+		if debug {
+			for (idx, s) in out.snaps.iter() {
+				println!("replica {} after event {}: tip {} know {:?} pursued {:?} htlc {:?} balances {:?}", pi + 1, idx, s.tip, s.know, s.pursued, s.htlc, s.balances);
+				if let Some(s0) = out0.snaps.get(idx) {
+					println!("replica 0 after event {}: tip {} know {:?} pursued {:?} htlc {:?} balances {:?}", idx, s0.tip, s0.know, s0.pursued, s0.htlc, s0.balances);
+				}
+			}
+		}
 		// (a)/(c): equal conclusions wherever this replica and replica 0 had been told the same best chain
 		for (idx, s) in out.snaps.iter() {
 			let Some(s0) = out0.snaps.get(idx) else { continue };
